@@ -323,6 +323,22 @@ func (m *Monitor) after(o Op, p *preState, res perfResult) {
 			}
 		}
 	}
+	// ---- redeemable: a conversion of a positive amount the holder owns, on an enabled pair, to an ordinary account is not
+	// refused (the pair books guarantee that the other side of the pair is there) ----
+	if (o.K == "ConvertERC20" || o.K == "ConvertCoin") && !res.ok && o.X > 0 && m.w.isUserLike(o.A) && m.w.isUserLike(o.B) && !w.disabledTok[o.T] {
+		nd := len(w.allDenoms())
+		have := p.user[o.A][nd+o.T]
+		if o.K == "ConvertCoin" {
+			for i, d := range w.allDenoms() {
+				if d.T == o.T && d.Which == 0 {
+					have = p.user[o.A][i]
+				}
+			}
+		}
+		if have.Cmp(big.NewInt(o.X)) >= 0 {
+			m.fail("C08:conversion-refused:"+w.Toks[o.T].Kind.String()+":"+o.K, fmt.Sprintf("%s is refused (%v) although the holder owns %s, the pair is enabled and the receiver is an ordinary account", o.Coq(), res.err, have))
+		}
+	}
 	// ---- per account: MsgConvertDenom debits the sender exactly what it credits to the receiver (same token, another
 	// denomination); paying to another (unblocked) account cannot be refused for funds when paying to oneself is not ----
 	if o.K == "ConvertDenom" && m.w.isUserLike(o.A) && m.w.isUserLike(o.B) {
